@@ -1,6 +1,6 @@
-CONSTANTS Stride2 = 1
-  Stride3 = 307
-  TruncStride = 11
+CONSTANTS Stride2 = 3
+  Stride3 = 2003
+  TruncStride = 71
 INIT Init
 NEXT Next
 INVARIANTS Out AnchorsAreTokenPositions
